@@ -15,7 +15,7 @@ from .common import *
 from .histlib import HistGen, run_scripts
 from .treelib import coq_tree, tok
 
-VARIANTS = ["equal", "subset", "superset", "replaced"]
+VARIANTS = ["equal", "subset", "superset", "replaced", "replaced_creator"]
 
 
 def dense(names):
@@ -82,7 +82,12 @@ def reinit_script(rng, i, variant):
         ops.append({"op": "kp", "who": outsider, "id": "k_out"})
         kps.append("k_out")
         new_names = new_names + [outsider]
-    ops.append({"op": "reinit_commit", "who": c, "id": "rc", "kps": kps})
+    rco = {"op": "reinit_commit", "who": c, "id": "rc", "kps": kps}
+    if variant == "replaced_creator":
+        # the party that creates the successor takes its own leaf under an identity that is not in the old group
+        rco["as"] = outsider
+        new_names = [outsider] + [x for x in new_names if x != c]
+    ops.append(rco)
     meta["create"] = len(ops) - 1
     meta["new_names"] = new_names
     meta["joins"] = []
